@@ -845,7 +845,7 @@ def r5(cx):
     if not allowed:
         cx.violation(b.fn, 'no-same-context-test', 'the volatile arm never compares the found entry\'s context with the current context', loc=b.loc(lasts[0][1]))
         return
-    p = b.shortest_path(start, set(b.return_blocks()), removed={blk for blk, _ in pushes}, removed_edges=allowed)
+    p = Q.shortest_path_flags(F, b, du, start, set(b.return_blocks()), removed={blk for blk, _ in pushes}, removed_edges=allowed)
     if p is not None:
         cx.violation(b.fn, 'volatile-reuses-foreign-entry', 'a temporary assignment can reuse, in place, a variable that belongs to another context '
                      '(e.g. the enclosing command\'s temporary assignment): the inner value overwrites the outer one and outlives the inner command',
